@@ -145,7 +145,7 @@ def run(tier):
     total = len(cases)
     if tier == "quick" and len(cases) > 6000:
         deep = [c for c in cases if c["lvl"] > 1]
-        step = max(1, len(deep) // 3000)
+        step = max(1, len(deep) // 2000)
         cases = [c for c in cases if c["lvl"] <= 1] + deep[common.seed() % step::step]
     scaled = [dict(c, _scale=f) for c in cases
               if (c["t"]["k"] == "Dense" or (c["t"]["k"] == "Annot" and c["t"]["a"][0]["k"] == "Dense"))
